@@ -244,6 +244,12 @@ class BaseExtractor:
             ).extract(sq.query, AnalyzerContext(cte=holder.cte, write={sq}))
             # remove WRITE tag from subquery so that the combined holder won't have multiple WRITE dataset
             nx.set_node_attributes(subquery_holder.graph, {sq: False}, NodeTag.WRITE)
+            # a CTE defined inside the subquery is not in scope outside of it
+            nx.set_node_attributes(
+                subquery_holder.graph,
+                {cte: False for cte in subquery_holder.cte if cte not in holder.cte},
+                NodeTag.CTE,
+            )
             holder |= subquery_holder
 
     @staticmethod
